@@ -11,6 +11,20 @@ from vlib.srcindex import FuncInfo, attr_chain, const_str, unparse, walk_no_nest
 _XCACHE: dict[int, ast.AST] = {}
 
 
+_PM_CACHE: dict[int, tuple] = {}
+
+
+def _pm(root: ast.AST) -> dict[int, ast.AST]:
+	"""parent map, memoised per tree object. The trees handed to the fact functions are the cached X()/FI() copies or function nodes of the source index,
+	which are not edited after their first analysis (merged_function / split_tuple_assigns edit their own fresh copy before returning it)."""
+	hit = _PM_CACHE.get(id(root))
+	if hit is None or hit[0] is not root:
+		hit = (root, parent_map(root))
+		_PM_CACHE[id(root)] = hit
+	return hit[1]
+
+
+
 def X(func: FuncInfo) -> ast.AST:
 	"""alias-expanded copy of the function definition"""
 	if id(func) not in _XCACHE:
@@ -49,7 +63,7 @@ def has_call(roots, suffix) -> bool:
 def path_conditions(func_node: ast.AST, target: ast.AST) -> list[tuple[ast.AST, bool]]:
 	"""conditions known to hold when `target` executes: enclosing if/elif/else and while tests, conditional-expression tests, and negated
 	tests of earlier sibling guards whose body always exits (`if c: return ...` before the statement)"""
-	pm = parent_map(func_node)
+	pm = _pm(func_node)
 	out: list[tuple[ast.AST, bool]] = []
 	cur = target
 	while id(cur) in pm:
@@ -108,6 +122,17 @@ def path_conditions(func_node: ast.AST, target: ast.AST) -> list[tuple[ast.AST, 
 	return fresh
 
 
+_ST_CACHE: dict[int, tuple] = {}
+
+
+def _stores(root: ast.AST) -> list[ast.Name]:
+	hit = _ST_CACHE.get(id(root))
+	if hit is None or hit[0] is not root:
+		hit = (root, [n for n in ast.walk(root) if isinstance(n, ast.Name) and isinstance(n.ctx, (ast.Store, ast.Del))])
+		_ST_CACHE[id(root)] = hit
+	return hit[1]
+
+
 def _killed(func_node: ast.AST, test: ast.AST, lo: tuple[int, int], hi: tuple[int, int], own_stmt: ast.AST | None) -> bool:
 	"""a variable read by `test` is re-bound between the point where the test was evaluated (lo) and the program point of interest (hi): the fact is stale.
 	Targets of the simple statement that contains the point of interest are bound after its value is evaluated and do not count."""
@@ -115,7 +140,7 @@ def _killed(func_node: ast.AST, test: ast.AST, lo: tuple[int, int], hi: tuple[in
 	if not names:
 		return False
 	own = {id(x) for x in ast.walk(own_stmt)} if isinstance(own_stmt, (ast.Assign, ast.AugAssign, ast.AnnAssign)) else set()
-	pm = parent_map(func_node)
+	pm = _pm(func_node)
 
 	def chain(x: ast.AST) -> list[ast.AST]:
 		out = [x]
@@ -125,8 +150,8 @@ def _killed(func_node: ast.AST, test: ast.AST, lo: tuple[int, int], hi: tuple[in
 
 	tchain = chain(own_stmt) if own_stmt is not None else []
 	tids = {id(x): i for i, x in enumerate(tchain)}
-	for n in ast.walk(func_node):
-		if isinstance(n, ast.Name) and isinstance(n.ctx, (ast.Store, ast.Del)) and n.id in names and lo < (n.lineno, n.col_offset) < hi and id(n) not in own:
+	for n in _stores(func_node):
+		if n.id in names and lo < (n.lineno, n.col_offset) < hi and id(n) not in own:
 			# a store in the other arm of an if statement that also contains the point of interest is not on the path
 			sch = chain(n)
 			exclusive = False
@@ -316,7 +341,7 @@ def inlined_bodies(func: FuncInfo, depth: int = 2) -> list[ast.AST]:
 def reaching_def(fn_node: ast.AST, use: ast.Name) -> ast.AST | None:
 	"""the value of the latest plain assignment to use.id that textually precedes the use and whose block encloses it (a cheap reaching
 	definition for straight-line code; None when the name is a parameter, a loop target, or assigned only later)"""
-	pm = parent_map(fn_node)
+	pm = _pm(fn_node)
 	anc = set()
 	cur: ast.AST = use
 	while id(cur) in pm:
@@ -336,11 +361,18 @@ def reaching_def(fn_node: ast.AST, use: ast.Name) -> ast.AST | None:
 	return best.value if best is not None else None
 
 
+_MR_CACHE: dict[int, tuple] = {}
+
+
 def may_reach(fn_node: ast.AST, use: ast.Name) -> list[ast.AST] | None:
 	"""the binding statements of use.id that MAY reach the use: the latest dominating one (straight line), every later one in a nested block between
 	it and the use (unless in the other arm of the same `if`), and — when the use sits in a loop that the dominating binding is outside of — every
 	binding inside that loop (back edge). None when the name has no binding in the function (parameter / global)."""
-	pm = parent_map(fn_node)
+	cached = _MR_CACHE.get(id(fn_node))
+	if cached is None or cached[0] is not fn_node:
+		cached = (fn_node, _pm(fn_node), {})
+		_MR_CACHE[id(fn_node)] = cached
+	pm = cached[1]
 
 	def ancestors(n: ast.AST) -> list[ast.AST]:
 		out = []
@@ -359,7 +391,10 @@ def may_reach(fn_node: ast.AST, use: ast.Name) -> list[ast.AST] | None:
 		if isinstance(n, ast.withitem):
 			return n.optional_vars is not None and any(isinstance(t, ast.Name) and t.id == use.id for t in ast.walk(n.optional_vars))
 		return False
-	all_b = [n for n in ast.walk(fn_node) if binds(n)]
+	all_b = cached[2].get(use.id)
+	if all_b is None:
+		all_b = [n for n in ast.walk(fn_node) if binds(n)]
+		cached[2][use.id] = all_b
 	if not all_b:
 		return None
 	anc_u = ancestors(use)
